@@ -24,3 +24,28 @@ Print Assumptions C08_no_leak_first_statement_refuted.
 (* the checker applied to traces recorded from the instrumented code accepts every run of the model *)
 Theorem C08_checker_sound : pw_checker_stmt.  Proof. exact pw_checker. Qed.
 Print Assumptions C08_checker_sound.
+
+(* ---- the Reader pipeline LTS (PipeR.v): reading goroutine, one worker per block, collector,
+   consumer; for EVERY interleaving, every queue capacity num >= 1, every number of blocks and every
+   set of undecodable blocks ---- *)
+From LZ4V Require Import PipeR PipeRSpec PipeRProofs.
+(* the consumer receives the blocks 0,1,2,... in order, exactly those before the first undecodable
+   one, and then the error of an undecodable block if there is one, the source's verdict otherwise *)
+Theorem C08_reader_order : pr_order_stmt.             Proof. exact pr_order. Qed.
+Print Assumptions C08_reader_order.
+(* decoded buffers: worker -> collector (hashes it) -> consumer -> pool, never two parties at once *)
+Theorem C08_reader_ownership : pr_owner_stmt.         Proof. exact pr_owner. Qed.
+Print Assumptions C08_reader_ownership.
+Theorem C08_reader_no_deadlock : pr_progress_stmt.    Proof. exact pr_progress. Qed.
+Print Assumptions C08_reader_no_deadlock.
+Theorem C08_reader_terminates : pr_terminates_stmt.   Proof. exact pr_terminates. Qed.
+Print Assumptions C08_reader_terminates.
+(* once the Reader has reported the end of the stream or an error: the reading goroutine and the
+   collector have exited, nothing is queued and no worker is blocked *)
+Theorem C08_reader_no_leak : pr_noleak_stmt.          Proof. exact pr_noleak. Qed.
+Print Assumptions C08_reader_no_leak.
+Theorem C08_reader_no_leak_enabled : pr_noleak_enabled_stmt.  Proof. exact pr_noleak_enabled. Qed.
+Print Assumptions C08_reader_no_leak_enabled.
+(* the checker applied to traces recorded from the instrumented Reader accepts every run of the model *)
+Theorem C08_reader_checker_sound : pr_checker_stmt.   Proof. exact pr_checker. Qed.
+Print Assumptions C08_reader_checker_sound.
